@@ -6,7 +6,7 @@ cd "$(dirname "$0")"
 export OCAMLRUNPARAM=s=8M
 cd coq
 coq_makefile -f _CoqProject -o Makefile
-timeout 3000 make -j16
+timeout 3000 make -k -j16 || echo "some Coq targets failed (reported by the checks that need them)"
 cd ..
 python3 - <<'PY'
 import sys; sys.path.insert(0, "harness")
